@@ -222,13 +222,20 @@ Definition envelope_step (d : definitions) (style : str) (operation : option str
       end
   end.
 
+(* list.sort(key=lambda x: x.name != "Header"): stable, the Header member(s) first *)
+Definition sort_envelope (c : aclass) : aclass :=
+  let ha (a : attr) := str_eqb (a_name a) m_header in
+  let hc (i : aclass) := str_eqb (c_name i) m_header in
+  set_inner (set_attrs c (filter ha (c_attrs c) ++ filter (fun a => negb (ha a)) (c_attrs c)))
+            (filter hc (c_inner c) ++ filter (fun i => negb (hc i)) (c_inner c)).
+
 Definition build_envelope_class (d : definitions) (bm : b_msg) (optm : option pt_msg) (name : str)
            (style : str) (namespace : option str) (operation : option str) : option aclass :=
   match optm with
   | None => None                          (* port_type_message.message on None *)
   | Some ptm =>
       let target := AClass (build_qname (d_tns d) name) (Some m_envelope) TagBindingMessage namespace [] [] in
-      fold_left (envelope_step d style operation ptm bm) (bm_exts bm) (Some target)
+      option_map sort_envelope (fold_left (envelope_step d style operation ptm bm) (bm_exts bm) (Some target))
   end.
 
 (* build_message_class *)
